@@ -39,7 +39,7 @@ package webdav
 //@ -- ---------------------------------------------------------------------------------------
 //@ -- C03 / C17 / C02 / C01 / C04: the local file system backend over the abstract resource tree of
 //@ -- /verif/specs/os.spec (ghost tree, data, fsroot). lnode(name) is the node a request path denotes.
-//@ spec served(fs LocalFileSystem) bool = fsroot == string(fs) && wfTree()
+//@ spec served(fs LocalFileSystem) bool = fsroot == string(fs) && wfTree() && leakTracked
 //@ spec validName(name string) bool = !contains(name, "\x00") && hasPrefix(pclean(name), "/")
 //@ spec lnode(name string) $P = node(fjoin(fsroot, pclean(name)))
 //@ func webdav.(LocalFileSystem).localPath(fs, name) (p, err)
@@ -373,7 +373,7 @@ package webdav
 //@   -- taint assumption: the client does not already know the host path
 //@   requires R2: !strHostPath(destPath(r)) && !strHostPath(hdr(r, "Destination"))
 //@   allocates
-//@   assigns ghost:tree, ghost:data, ghost:fhNode, ghost:rstatus, ghost:hv, ghost:wbody, ghost:rdC, ghost:rdIdx, ghost:servedMS
+//@   assigns ghost:tree, ghost:data, ghost:fhNode, ghost:rstatus, ghost:hv, ghost:wbody, ghost:rdC, ghost:rdIdx, ghost:servedMS, ghost:servedErr
 //@   ensures A0: wstatus(w) != 0
 //@   ensures WF: wfTree()
 //@   ensures DEL1: r.Method == "DELETE" ==> wstatus(w) == (old(delCode(r.URL.Path, hdr(r, "If-Match"), hdr(r, "If-None-Match"))) == 0 ? 204 : old(delCode(r.URL.Path, hdr(r, "If-Match"), hdr(r, "If-None-Match"))))
